@@ -171,7 +171,42 @@ def structural_analysis_restore(repo):
     return out
 
 
-STRUCTURAL = [structural_analysis_restore]
+DIRECT_RESET = ['complete', 'infer', 'goto', 'help', 'get_references', 'get_signatures', '_names']
+
+
+def structural_reset(repo):
+    """per-query reset of the recursion bookkeeping: each query method that resets it today does so itself, before
+    anything else (leaked counters make a later identical query on the same Script answer differently)"""
+    rel = 'jedi/api/__init__.py'
+    try:
+        tree = ast.parse(open(os.path.join(repo, rel), encoding='utf-8').read())
+    except (OSError, SyntaxError) as e:
+        return [{'id': 'reset', 'kind': 'frame', 'ok': None, 'label': 'cannot parse %s: %s' % (rel, e)}]
+    from pyvc.verify import find_function
+    out = []
+    for q in DIRECT_RESET:
+        f = find_function(tree, 'Script.' + q)
+        if f is None:
+            out.append({'id': 'reset:' + q, 'kind': 'frame', 'ok': None, 'label': 'Script.%s not found' % q})
+            continue
+        body = [s_ for s_ in f.body if not (isinstance(s_, ast.Expr) and isinstance(s_.value, ast.Constant)
+                                            and isinstance(s_.value.value, str))]
+        # the reset is a top-level statement of the method and only argument handling precedes it
+        idx = [i for i, s_ in enumerate(body)
+               if ast.unparse(s_).strip() == 'self._inference_state.reset_recursion_limitations()']
+        ok = bool(idx)
+        if ok:
+            before = body[:idx[0]]
+            ok = all(not any(isinstance(n, ast.Call) and 'self._inference_state' in ast.unparse(n)
+                             or isinstance(n, ast.Call) and ast.unparse(n.func).startswith(('helpers.', 'self._get_module'))
+                             for n in ast.walk(s_)) for s_ in before)
+        out.append({'id': 'reset:' + q, 'kind': 'frame', 'ok': ok,
+                    'label': 'Script.%s resets the recursion bookkeeping itself, unconditionally and before any '
+                             'inference (the counters of one query never leak into the next one)' % q})
+    return out
+
+
+STRUCTURAL = [structural_analysis_restore, structural_reset]
 NOT_DECIDED = ['that the input order of completion names is hash-independent (value sets are frozensets of '
                'identity-hashed objects)', 'memo entries holding recursion defaults (order dependence through the cache)',
                'Name-level follow-up queries share one execution budget (F15)']
